@@ -2,6 +2,8 @@
 from __future__ import annotations
 
 import ast
+import enum
+import signal
 import sys
 import types
 
@@ -310,7 +312,34 @@ def check_lambda_constants(ctx, scalars):
 
 # ---------------------------------------------------------------- part 4: check_ast
 
-ODD_CONSTS = [None, Ellipsis, True, 0, 1.5, 2j, "s", b"b", sys, types, int, (1, 2), frozenset(), 10 ** 30, -0.0]
+class _IntEnum(enum.IntEnum):
+    R = 1
+
+
+class _Flag(enum.IntFlag):
+    A = 1
+    B = 2
+
+
+class _StrSub(str):
+    pass
+
+
+class _FloatSub(float):
+    pass
+
+
+class _IntSub(int):
+    pass
+
+
+class _BytesSub(bytes):
+    pass
+
+
+# instances of subclasses of the legal scalar types have no literal form: refused like any other object (F38)
+SUBCLASS_CONSTS = [_IntEnum.R, _StrSub("ab"), _FloatSub(1.5), _IntSub(7), _BytesSub(b"x"), _Flag.A | _Flag.B, signal.SIGINT]
+ODD_CONSTS = [None, Ellipsis, True, 0, 1.5, 2j, "s", b"b", sys, types, int, (1, 2), frozenset(), 10 ** 30, -0.0] + SUBCLASS_CONSTS
 TEMPLATES = ["lambda e: K", "f(a, k=K)", "f(K, *K, **K)", "{K: 1}", "{1: K}", "a[K]", "[K for x in y if K]", "{K}", "a[K:K]",
              "(K for x in K)", "K if a else b", "a if K else b", "not K", "a < K", "a and K", "K.real", "(a, [K])",
              "f'{K}'", "lambda e=K: e", "{**K}", "K @ K", "a[1:2, K]"]
@@ -400,7 +429,7 @@ def run(ctx):
     check_terminals(ctx, triples)
     scalars = [s for s in L.CORPUS_STRINGS if "\ud800" not in s and "\udfff" not in s] + \
               [v for v in L.CORPUS_VALUES if not isinstance(v, (list, tuple, dict))] + \
-              [[1, 2], (1,), {"a": 1}, (), [], {}, Ellipsis, 2j, sys, frozenset()] + \
+              [[1, 2], (1,), {"a": 1}, (), [], {}, Ellipsis, 2j, sys, frozenset()] + SUBCLASS_CONSTS + \
               [L.rand_scalar(r) for _ in range(ctx.budget(120, 1500))]
     check_lambda_constants(ctx, scalars)
     check_gate(ctx)
